@@ -12,6 +12,7 @@
 -/
 import ApiFu.C12.WalksLemmas
 import ApiFu.C12.WalksFieldsLemmas
+import ApiFu.C12.WalksSubscription
 
 namespace ApiFu.C12
 open ApiFu.C06
@@ -133,5 +134,29 @@ def twoFields : Document :=
 example : fieldsCheck { shape := fun _ _ => .leaf, merge := fun _ _ _ _ => .recurse } twoFields =
     some { sets := 1, collect := 2, canMergePair := 1, sameShape := 1, sameShapePair := 0, errors := 0 } := by
   decide +kernel
+
+/-- **subscription_rule_poly** — the "one root field" rule of validateOperations: the addFieldSelections
+    calls it makes on the root selection sets of the subscription operations end within the model's fuel and
+    look at at most `n·(2n+4)` selections altogether (site fields.collect; `n` tokens), for every document —
+    fragment cycles included (the collection stops at a selection set it has already entered). -/
+theorem subscription_rule_poly (d : Document) :
+    ∃ n, subscriptionCollect d = some n ∧ n ≤ d.stoks.length * (2 * d.stoks.length + 4) := by
+  obtain ⟨n, h, hn⟩ := subsCollect_bound (setTable d.defs) (fragTop (fragDefs d.defs)) d.defs
+  have hW : tableW (setTable d.defs) ≤ d.stoks.length := setTable_le d.defs
+  have hK : colFuel (setTable d.defs) ≤ 2 * d.stoks.length + 4 := by rw [colFuel_eq]; omega
+  have hO : opCount d.defs ≤ d.stoks.length := by
+    have := (counts_le_tokens d.defs).2
+    exact Nat.le_trans (Nat.le_add_left _ _) this
+  exact ⟨n, h, Nat.le_trans hn (Nat.mul_le_mul hO hK)⟩
+
+/-- Non-vacuity: `subscription { ...A } fragment A on S { x ...A }` — a cycle through the root: the
+    collection takes 3 steps and ends. -/
+def subLoopDoc : Document :=
+  { defs := [.op (some ⟨"subscription", ⟨1, 1⟩⟩) none [] []
+               (.mk [.spread ⟨1, 16⟩ ⟨"A", ⟨1, 19⟩⟩ []] ⟨1, 14⟩ ⟨1, 21⟩),
+             .frag ⟨2, 1⟩ ⟨"A", ⟨2, 10⟩⟩ ⟨"S", ⟨2, 15⟩⟩ []
+               (.mk [.field none ⟨"x", ⟨2, 19⟩⟩ [] [] none, .spread ⟨2, 21⟩ ⟨"A", ⟨2, 24⟩⟩ []] ⟨2, 17⟩ ⟨2, 26⟩)] }
+
+example : subscriptionCollect subLoopDoc = some 3 := by decide +kernel
 
 end ApiFu.C12
